@@ -28,7 +28,8 @@ func init() {
 		Explanation: "Linearizability is a property of recorded histories and is NOT decided. Decided are structural preconditions without which it fails: " +
 			"(1) single-writer section — in Put/Delete/ApplyBatch the log append, the memtable insert and the lastSeqNum update execute under one exclusive hold of storage.Manager.mu (closures passed to RetryOnWALRotating are analysed in the caller's lock context); readers hold it shared; " +
 			"(2) error means no effect, success means once — no exit between a successful append and the insert, every feasible exit after the insert returns nil, the retry closure is re-run only on ErrWALRotating, which every Append* returns before consuming a number or writing a byte; " +
-			"(3) the stamp given to the memtable is the very number the log assigned; (4) WAL pointer discipline — Manager.wal is accessed atomically on the write path; (5) the retry wrapper's decision table (one call on success or on another error, an error after exhausted retries, re-run only on errors every Append* returns before any effect); (6) immutable memtables leave the pool (the read path) only into the flush path; (7) shared with C08: the sequence counter is handed over to the new log at rotation (a write acknowledged after a flush is never shadowed by an older version with a higher stamp).",
+			"(3) the stamp given to the memtable is the very number the log assigned; (4) WAL pointer discipline — Manager.wal is accessed atomically on the write path; (5) the retry wrapper's decision table (one call on success or on another error, an error after exhausted retries, re-run only on errors every Append* returns before any effect); (6) immutable memtables leave the pool (the read path) only into the flush path; (7) shared with C08: the sequence counter is handed over to the new log at rotation (a write acknowledged after a flush is never shadowed by an older version with a higher stamp). " +
+			"(8) every Append* reads the closed/rotating status while WAL.mu is held.",
 		NotDecided: "everything else: real-time order, stale reads across rotation, all schedules with background flush/compaction.",
 		Rules:      []func(*Ctx, *Reporter){ruleStSingleWriter, ruleStEffectOnce, ruleStStamps, ruleWalRotatingNoEffect, ruleStWalPointer, ruleLayersLeaveOnly, ruleStRotationSeqOnly, ruleWalStatusUnderLock},
 	})
@@ -38,7 +39,8 @@ func init() {
 			"(2) Append/AppendBatch return the counter value read before the write, write the record with it and advance the counter past it before every success exit; " +
 			"(3) hand-over: wherever a freshly constructed WAL becomes the current log in non-constructor code, it first receives the old log's counter; " +
 			"(4) recovery restores the counter to replay-maximum+1 on every success path with a non-zero maximum, and the maximum is a running maximum; " +
-			"(5) the memtable stamp and the reported last sequence are the number the log assigned (batch entries share the batch's number because the log advances by one per batch); lastSeqNum is written only on the write path and by recovery.",
+			"(5) the memtable stamp and the reported last sequence are the number the log assigned (batch entries share the batch's number because the log advances by one per batch); lastSeqNum is written only on the write path and by recovery. " +
+			"(6) every Append* reads the closed/rotating status while WAL.mu is held (the hand-over of the counter at rotation relies on it).",
 		NotDecided: "the actual numbers in a log directory after arbitrary histories; interactions between WAL retention and sequence numbers stored in SSTables.",
 		Rules:      []func(*Ctx, *Reporter){ruleWalMonotone, ruleStRotationSeqOnly, ruleStRecovery, ruleStStamps, ruleWalStatusUnderLock},
 	})
